@@ -7,8 +7,9 @@ package grpc
 // index is sent as the 32-byte big-endian form of the same canonical value the commitments hash.
 
 //@ func leafTypeToProto (leafType)
-//@   trusted
+//@   props C10
 //@   modifies nothing
+//@   ensures[asset-goes-out-as-transfer-message-as-message] (leafType == types.LeafTypeAsset ==> result == v1types.LeafType_LEAF_TYPE_TRANSFER) && (leafType == types.LeafTypeMessage ==> result == v1types.LeafType_LEAF_TYPE_MESSAGE) && ((leafType != types.LeafTypeAsset && leafType != types.LeafTypeMessage) ==> result == v1types.LeafType_LEAF_TYPE_UNSPECIFIED)
 
 //@ func convertToProtoSiblings (siblings)
 //@   props C10
@@ -23,6 +24,7 @@ package grpc
 //@   modifies nothing
 //@   ensures[nil] be == nil ==> result == nil
 //@   ensures[fields] be != nil ==> result != nil && result.DestNetwork == be.DestinationNetwork && result.DestAddress != nil && seq(result.DestAddress.Value) == ab(be.DestinationAddress) && result.TokenInfo != nil && result.TokenInfo.OriginNetwork == be.TokenInfo.OriginNetwork && result.TokenInfo.OriginTokenAddress != nil && seq(result.TokenInfo.OriginTokenAddress.Value) == ab(be.TokenInfo.OriginTokenAddress)
+//@   ensures[leaf-type] be != nil ==> ((be.LeafType == types.LeafTypeAsset ==> result.LeafType == v1types.LeafType_LEAF_TYPE_TRANSFER) && (be.LeafType == types.LeafTypeMessage ==> result.LeafType == v1types.LeafType_LEAF_TYPE_MESSAGE))
 //@   ensures[amount] (be != nil && be.Amount != nil && 0 <= bigval(be.Amount) && bigval(be.Amount) < 115792089237316195423570985008687907853269984665640564039457584007913129639936) ==> result.Amount != nil && len(result.Amount.Value) == 32 && bytesOf(seq(result.Amount.Value), 32) == beNB(bigval(be.Amount), 32)
 //@   ensures[metadata] (be != nil && len(be.Metadata) == 32) ==> result.Metadata != nil && len(result.Metadata.Value) == 32 && seq(result.Metadata.Value) == hb(hashOf(seq(be.Metadata)))
 //@   ensures[no-metadata] (be != nil && len(be.Metadata) == 0) ==> result.Metadata == nil
